@@ -218,7 +218,7 @@ def check(pid, tier, seed):
                 k = int(prob.split()[1]) if prob.startswith("step ") and prob.split()[1].isdigit() else sum(1 for r in recs if r.get("e") == "Obs")
                 what = prob.split(":")[1].strip().split()[0:4] if ":" in prob else []
                 verdict.violation("subject[%s,%s] %s %s" % (cfg, sig, ops[min(k, len(ops) - 1)].split()[0], " ".join(what)), prob,
-                                  {"component": "subject", "sig": sig, "history": ops[:k + 1]})
+                                  {"component": "subject", "xid": xid, "sig": sig, "history": ops[:k + 1]})
             if len(samples) < 2 and len(path) > 3:
                 samples.append({"source": "tlc-path " + cfg, "sig": sig, "history": [step_line(g, ei)[2:] for ei in path][:20]})
         log("[%s] graph %s: %d states / %d edges, %d executions" % (pid, cfg, len(g.states), len(g.edges), len(meta)))
@@ -241,13 +241,13 @@ def check(pid, tier, seed):
         if prob:
             nobs = sum(1 for r in recs if r.get("e") in ("Obs", "Skip"))
             verdict.violation("subject[random,%s] %s" % (c["sig"], " ".join(prob.split()[:6])), prob,
-                              {"component": "subject", "sig": c["sig"], "history": [list(s[:4]) + [sc_str(s[4])] for s in c["steps"][:nobs + 1]]})
+                              {"component": "subject", "xid": x, "sig": c["sig"], "history": [list(s[:4]) + [sc_str(s[4])] for s in c["steps"][:nobs + 1]]})
     acc, rej, tst = tracecheck.validate(SPEC, "SubjectTraceMC.tla", "SubjectTrace.cfg", execs)
     log("[%s] trace validation: %d histories, %d rejected, TLC %.1fs" % (pid, len(execs), len(rej), tst["tlc_wall_s"]))
     for x, info in rej.items():
         nx = info["next"] or {}
         verdict.violation("subject[random,%s] history rejected at %s" % (ycfg[x]["sig"], nx.get("op")), {"matched": info["matched"], "next": nx},
-                          {"component": "subject", "sig": ycfg[x]["sig"], "events": info["events"][:info["matched"] + 1]})
+                          {"component": "subject", "xid": x, "sig": ycfg[x]["sig"], "events": info["events"][:info["matched"] + 1]})
     nexec += len(ycfg)
     samples.append({"source": "random", "sig": ycfg[list(ycfg)[0]]["sig"], "history": [list(s[:4]) + [sc_str(s[4])] for s in ycfg[list(ycfg)[0]]["steps"][:15]]})
     cov = {"states": tot_states, "transitions": tot_edges, "traces_validated_against_impl": nexec, "samples": samples,
@@ -258,3 +258,13 @@ def check(pid, tier, seed):
     rc = verdict.finish()
     common.write_evidence(pid, tier, seed, "model_checking", cov, ASSUMPTIONS, time.time() - t0, len(verdict.violations))
     return rc
+
+
+def all_harnesses():
+    exe = harness()
+    return {exe.name: exe}
+
+
+def replay(pid, path):
+    import sys
+    return common.replay(pid, path, sys.modules[__name__])
